@@ -268,6 +268,10 @@ def check_richardson_call(reg, src, prop):
         sd = st.new_obj("dict", "dict", items={})
         selfobj = st.new_obj("RichardsonExtrapolatedIntegrator", fields=dict(symplectic=symplectic, solver_dict=sd, dState=None, dTime=None))
 
+        # the step handed in is the system's own dt array (OdeSystem.integrate passes self.dt itself; __dt0 may be the same object): the
+        # wrapper must not update it in place
+        ex.borrowed[id(h)] = ("passed in as `timestep` (the caller's step-size array)", h)
+
         def adaptive_richardson(ex_, st_, ctx, args, kwargs):
             ts = args[5]
             return (ts, (ts, z3.Real(fresh_name("dy"))), z3.Real(fresh_name("diff")))
@@ -503,7 +507,11 @@ def check_rk_call_unbounded(reg, src, prop, implicit, adaptive, keep=None, fault
     h = z3.Real("h0")
     st.assume(h != 0)
     consts = st.new_obj("dict", "dict", items={})
-    paths = ex.call_function(fi, [selfobj, UFunc("rhs", "real"), z3.Real("t"), z3.Real("y"), consts, h], {}, st, ctx, contract=c)
+    t_arg, y_arg = z3.Real("t"), z3.Real("y")
+    # ownership: the step, time and state handed in are the caller's arrays (OdeSystem passes its own dt / buffer rows): never updated in place
+    for v_, what in ((h, "timestep"), (t_arg, "initial_time"), (y_arg, "initial_state")):
+        ex.borrowed[id(v_)] = ("passed in as `%s` (an array the caller still holds)" % what, v_)
+    paths = ex.call_function(fi, [selfobj, UFunc("rhs", "real"), t_arg, y_arg, consts, h], {}, st, ctx, contract=c)
     n_ret = n_raise = n_fault = 0
     for k, (s, v) in enumerate(paths):
         if s.ghost.get("fault_raised"):
